@@ -1,6 +1,7 @@
 """
 This module contains the incremental SAGE explainer.
 """
+import copy
 from typing import Callable, Any, Union, Dict, Sequence, Optional
 
 import numpy as np
@@ -128,11 +129,13 @@ class IncrementalSage(BaseIncrementalFeatureImportance):
                                  for index in np.random.permutation(len(self.feature_names))]
             y_i_pred = self._model_function(x_i)
             model_loss = self._loss_function(y_i, y_i_pred)
-            self._model_loss_tracker.update(model_loss)
-            self._marginal_prediction_tracker.update(y_i_pred)
-            self.marginal_prediction = self._marginal_prediction_tracker.get_normalized()
-            sample_loss = self._loss_function(y_i, self.marginal_prediction)
-            self._marginal_loss_tracker.update(sample_loss)
+            # all estimates are computed on the side and committed only after the last callback
+            # (model, loss, imputer, storage) has returned, so a failing callback changes nothing
+            marginal_prediction_tracker = copy.deepcopy(self._marginal_prediction_tracker)
+            marginal_prediction_tracker.update(y_i_pred)
+            marginal_prediction = marginal_prediction_tracker.get_normalized()
+            sample_loss = self._loss_function(y_i, marginal_prediction)
+            marginal_loss = sample_loss
             features_not_in_s = set(self.feature_names)
             marginal_contributions = {}
             for feature in permutation_chain:
@@ -147,13 +150,19 @@ class IncrementalSage(BaseIncrementalFeatureImportance):
                 marginal_contribution = sample_loss - feature_loss
                 sample_loss = feature_loss
                 marginal_contributions[feature] = marginal_contribution
+            if update_storage:
+                self._storage.update(x_i, y_i)
+            self._model_loss_tracker.update(model_loss)
+            self._marginal_prediction_tracker = marginal_prediction_tracker
+            self.marginal_prediction = marginal_prediction
+            self._marginal_loss_tracker.update(marginal_loss)
             self._importance_trackers.update(marginal_contributions)
             variances = {
                 feature: (marginal_contributions[feature] - self.importance_values[feature])**2
                 for feature in self.feature_names
             }
             self._variance_trackers.update(variances)
-        self.seen_samples += 1
-        if update_storage:
+        elif update_storage:
             self._storage.update(x_i, y_i)
+        self.seen_samples += 1
         return self.importance_values
